@@ -339,7 +339,7 @@ PROPS = {
         ],
         assumptions=[
             "each consumer attaches once; the remote's envelopes are arbitrary sequences (the theorems do not assume a well-behaved lane); consumers neither fail nor drop (partial)",
-            "map downlinks: the read side is compared with the same model (events are opaque, SINGLE_FRAME_STATE = false); the write side's map backpressure is the runtime's MapOperationQueue, which is modelled, proved (per-key order, clear barrier, convergence of the replica) and tied to the code under C02 (Model/MapQueue.v, h_agent/c02); it is not composed with the write task model here: with an attentive remote map commands pass unchanged and are compared as a sequence, slow sockets are exercised for value downlinks only",
+            "map downlinks: the read side is compared with the same model (events are opaque, SINGLE_FRAME_STATE = false); the write side's map backpressure is the runtime's MapOperationQueue, which is modelled, proved (per-key order, clear barrier, convergence of the replica) and tied to the code under C02 (Model/MapQueue.v, h_agent/c02); Model/DlMapWrite.v composes it with the write task (C07_map_commands_converge); with an attentive remote map commands pass unchanged and are compared as a sequence, with a slow socket they must satisfy the per-key oracle (in order per key, the last operation of every key is sent)",
             "with a slow socket the frames are not compared with the model (write completion is not observable precisely) but must satisfy the oracle: link first, commands a subsequence in order",
         ],
     ),
